@@ -188,7 +188,7 @@ let gen_forest r ~ver ~nunits ~maxn ~cars ~nesting ~invalid ~maxsites : gforest 
         let car = if car = 4 && ver < 5 then 5 else car in   (* the v2-4 writer rejects begin = end *)
         let nest = if car >= 2 then (match rand_int r 6 with 0 -> 1 | 1 -> 2 | _ -> 0) else 0 in
         let nest = if nesting then nest else 0 in
-        let op = if car >= 2 then rand_int r 10 else 0 in
+        let op = if car >= 2 then rand_int r (if nesting then 10 else 8) else 0 in
         let info = car = 1 || (car >= 2 && op_info op) in
         let bad = rand_int r 1000 < invalid in
         let tgt =
